@@ -502,6 +502,7 @@ func checkC16(w *World, r *Report) {
 	checkLengthPrefixes(w, r, "R16.3")
 	checkGobDead(w, r)
 	checkCompiledPaths(w, r)
+	checkNameToFileInjective(w, r)
 	// R16.6: nothing on the compile / load / serialise paths memoises in a package-level table
 	// anything that is not a function of the table's key (a parsed tree keyed by name+timestamp…)
 	codec := map[*ssa.Function]bool{}
@@ -1074,4 +1075,193 @@ func checkSaveWrites(w *World, r *Report) {
 		}
 	}
 	r.floor("functions writing compiled files", n, 1)
+}
+
+// checkNameToFileInjective — R16.8: two template names never share a file.  In the methods of
+// the package's loaders (and the helpers they call with the name), a template name reaches
+// filepath.Join / a file-system call only through concatenation and joining; it does not pass
+// through a string function that maps different names to one result (Replace/ReplaceAll/Map,
+// case folding, trimming, Base).  "Keeping the compiled directory flat" by turning `/` into
+// `_` makes `admin/index` and `admin_index` one file: the second save overwrites the first and
+// one of the two names reads back the other's template.
+func checkNameToFileInjective(w *World, r *Report) {
+	lossy := map[string]bool{
+		"strings.Replace": true, "strings.ReplaceAll": true, "strings.Map": true, "strings.ToLower": true, "strings.ToUpper": true,
+		"strings.Title": true, "strings.TrimSpace": true, "strings.Trim": true, "strings.TrimLeft": true, "strings.TrimRight": true,
+		"strings.TrimPrefix": true, "strings.TrimSuffix": true, "strings.Fields": true, "strings.Split": true, "strings.SplitN": true,
+		"path/filepath.Base": true, "path.Base": true, "strings.ToValidUTF8": true, "(*strings.Replacer).Replace": true,
+	}
+	iface, ok := w.named("Loader").Underlying().(*types.Interface)
+	if !ok {
+		return
+	}
+	isLoader := func(t types.Type) bool {
+		if _, isI := t.Underlying().(*types.Interface); isI {
+			return false
+		}
+		return types.Implements(t, iface) || types.Implements(types.NewPointer(t), iface)
+	}
+	fsCall := func(f *types.Func) bool {
+		if f == nil || f.Pkg() == nil {
+			return false
+		}
+		switch f.Pkg().Path() {
+		case "os":
+			switch f.Name() {
+			case "Stat", "Lstat", "ReadFile", "WriteFile", "Open", "OpenFile", "Create", "Remove", "MkdirAll", "Rename":
+				return true
+			}
+		}
+		return false
+	}
+	n := 0
+	for _, fn := range w.pkgFuncs() {
+		recv := fn.Signature.Recv()
+		if recv == nil || !isLoader(deref(recv.Type())) || fn.Synthetic != "" {
+			continue
+		}
+		// the name parameter: string parameters of the method
+		var nameParams []*ssa.Parameter
+		for _, p := range fn.Params[1:] {
+			if types.Identical(p.Type(), types.Typ[types.String]) {
+				nameParams = append(nameParams, p)
+			}
+		}
+		if len(nameParams) == 0 {
+			continue
+		}
+		instrsOf(fn, func(in ssa.Instruction) {
+			c, ok := in.(*ssa.Call)
+			if !ok || !fsCall(calleeFunc(c)) || len(c.Call.Args) == 0 {
+				return
+			}
+			// backward slice of the path argument
+			var found, viaName bool
+			var where string
+			seen := map[ssa.Value]bool{}
+			var walk func(v ssa.Value, d int)
+			walk = func(v ssa.Value, d int) {
+				if seen[v] || d > 14 {
+					return
+				}
+				seen[v] = true
+				switch x := v.(type) {
+				case *ssa.Parameter:
+					for _, p := range nameParams {
+						if x == p {
+							viaName = true
+						}
+					}
+					if x.Parent() != fn {
+						// a helper's parameter: the slice was entered through a call below
+						viaName = viaName || types.Identical(x.Type(), types.Typ[types.String])
+					}
+				case *ssa.BinOp:
+					walk(x.X, d+1)
+					walk(x.Y, d+1)
+				case *ssa.Phi:
+					for _, e := range x.Edges {
+						walk(e, d+1)
+					}
+				case *ssa.UnOp:
+					if u := unspill(x); u != ssa.Value(x) {
+						walk(u, d+1)
+					}
+				case *ssa.Slice:
+					if _, isAl := x.X.(*ssa.Alloc); isAl {
+						for _, e := range variadicElems(x) {
+							if e != ssa.Value(x) {
+								walk(e, d+1)
+							}
+						}
+					} else {
+						walk(x.X, d+1)
+					}
+				case *ssa.Call:
+					f := calleeFunc(x)
+					full := ""
+					if f != nil {
+						full = f.FullName()
+					}
+					if lossy[full] {
+						// only if the name flows into it
+						sub := map[ssa.Value]bool{}
+						nameIn := false
+						var reach func(a ssa.Value, dd int)
+						reach = func(a ssa.Value, dd int) {
+							if sub[a] || dd > 10 {
+								return
+							}
+							sub[a] = true
+							switch y := a.(type) {
+							case *ssa.Parameter:
+								if types.Identical(y.Type(), types.Typ[types.String]) {
+									nameIn = true
+								}
+							case *ssa.BinOp:
+								reach(y.X, dd+1)
+								reach(y.Y, dd+1)
+							case *ssa.Call:
+								for _, b := range y.Call.Args {
+									reach(b, dd+1)
+								}
+							case *ssa.Slice:
+								if _, isAl := y.X.(*ssa.Alloc); isAl {
+									for _, e := range variadicElems(y) {
+										if e != ssa.Value(y) {
+											reach(e, dd+1)
+										}
+									}
+								} else {
+									reach(y.X, dd+1)
+								}
+							case *ssa.Phi:
+								for _, e := range y.Edges {
+									reach(e, dd+1)
+								}
+							case *ssa.UnOp:
+								if u := unspill(y); u != ssa.Value(y) {
+									reach(u, dd+1)
+								}
+							}
+						}
+						for _, a := range x.Call.Args {
+							reach(a, 0)
+						}
+						if nameIn {
+							found, where = true, full+" at "+w.posOf(x.Pos())
+						}
+					}
+					if g := x.Call.StaticCallee(); g != nil && g.Pkg != nil && g.Pkg.Pkg.Path() == twigPath && len(g.Blocks) > 0 {
+						// a path helper of the package: its results
+						instrsOf(g, func(gi ssa.Instruction) {
+							if ret, ok := gi.(*ssa.Return); ok {
+								for _, rv := range retResults(ret) {
+									if types.Identical(rv.Type(), types.Typ[types.String]) {
+										walk(rv, d+1)
+									}
+								}
+							}
+						})
+						return
+					}
+					for _, a := range x.Call.Args {
+						walk(a, d+1)
+					}
+				}
+			}
+			walk(c.Call.Args[0], 0)
+			if !viaName {
+				return
+			}
+			n++
+			construct := "template name reaches " + calleeFunc(c).Name() + " without a many-to-one transformation"
+			if found {
+				r.bad("R16.8", ssaName(fn), construct, w.posOf(in.Pos()), "on its way into the file name the template name passes through "+where+", which maps different names to the same string: two templates share one file, so what is read back under a name can be another template's source")
+			} else {
+				r.ok("R16.8", ssaName(fn), construct, w.posOf(in.Pos()), "the name is only concatenated and joined", true)
+			}
+		})
+	}
+	r.floor("file-system calls on paths derived from a template name", n, 4)
 }
